@@ -60,8 +60,7 @@ func (n *node) writeKey(k *kbuf, pass2 bool) {
 	k.u(n.snapIdx)
 	k.u(n.snapTrm)
 	if n.snapIdx > 0 {
-		snap, _ := n.st.Snapshot()
-		k.conf(&snap.Metadata.ConfState)
+		k.conf(&n.snapConf)
 	}
 	k.u(uint64(len(n.log)))
 	for i := range n.log {
@@ -131,9 +130,8 @@ func (n *node) writeKey(k *kbuf, pass2 bool) {
 // changing anything.
 func (c *cluster) key() (uint64, []byte) {
 	k := &kbuf{b: make([]byte, 0, 1024)}
-	pass2 := c.cfg.CheckQuorum || c.cfg.PreVote
 	for _, n := range c.nodes {
-		n.writeKey(k, pass2)
+		k.b = append(k.b, n.kb...)
 	}
 	// in-flight messages: multiset (Box A) or FIFO sequence (Box B)
 	k.u(uint64(len(c.pool)))
